@@ -281,7 +281,22 @@ func c13WhoAuthenticates(c *Ctx) {
 			if !ok {
 				return
 			}
-			if _, f, ok := fieldOfAddr(s.Addr); ok && f.Name() == "authenticated" && f.Pkg() != nil && f.Pkg().Path() == identPkgPath {
+			b0, f0, ok0 := fieldOfAddr(s.Addr)
+			if ok0 && f0.Name() == "Authenticated" {
+				if al := baseAlloc(b0); al != nil && al.Parent() == fn {
+					ok0 = false // a field of a local literal (the mirror built by Marshal), not of an identity
+				}
+			}
+			// the flag itself (User.authenticated, or the Authenticated field of the record the identity
+			// keeps its state in), or that record replaced as a whole
+			isFlag := ok0 && f0.Pkg() != nil && f0.Pkg().Path() == identPkgPath && (f0.Name() == "authenticated" || f0.Name() == "Authenticated" && fn.Pkg != nil && fn.Pkg.Pkg.Path() == identPkgPath)
+			isRecord := ok0 && f0.Pkg() != nil && f0.Pkg().Path() == identPkgPath && typeIs(f0.Type(), identPkgPath, "user")
+			if isRecord {
+				okr := sf == "(*cmd/rdpgw/identity.User).Unmarshal" || sf == "cmd/rdpgw/identity.NewUser"
+				c.Check(okr, rule, "store User record in "+sf, s.Pos(), "session restore / constructor", "the identity's whole record is replaced outside Unmarshal and NewUser")
+				return
+			}
+			if _, f, ok := fieldOfAddr(s.Addr); ok && isFlag && f.Pkg() != nil && f.Pkg().Path() == identPkgPath {
 				ok2 := sf == "(*cmd/rdpgw/identity.User).SetAuthenticated" || sf == "(*cmd/rdpgw/identity.User).Unmarshal"
 				if um := c.FnOpt("cmd/rdpgw/identity", "User.Unmarshal"); !ok2 && um != nil && c.onlyCalledFrom(fn, um, 0) {
 					ok2 = true // the restoring half of Unmarshal, extracted
@@ -425,7 +440,8 @@ func c13Store(c *Ctx) {
 		n++
 		k := "InitStore " + name[strings.LastIndex(name, ".")+1:]
 		elems, ok := sliceLitElems(keys)
-		good := ok && len(elems) == 2 && strip(elems[0]) == ssa.Value(fn.Params[0]) && strip(elems[1]) == ssa.Value(fn.Params[1])
+		// (a defensive bytes.Clone of a key is the key)
+		good := ok && len(elems) == 2 && localVal(peelCopy(localVal(strip(elems[0])))) == ssa.Value(fn.Params[0]) && localVal(peelCopy(localVal(strip(elems[1])))) == ssa.Value(fn.Params[1])
 		c.Check(good, rule, k+" keys", ci.Pos(), "built with (sessionKey, encryptionKey): values are MACed and encrypted", "the store is not built with both the authentication and the encryption key")
 		for i, pn := range []string{"sessionKey", "encryptionKey"} {
 			ok2, why := mustPass(fn, ci.(ssa.Instruction), lenAtLeast(isParam(i), 32))
@@ -480,6 +496,42 @@ func c13Mirror(c *Ctx) {
 		})
 	}
 	if lit == nil {
+		// no mirror: the identity keeps its state in the stored record itself (struct{ rec user }).
+		// Marshal encodes that field; Unmarshal decodes a fresh record and assigns it to the field.
+		var recField *types.Var
+		encOK := false
+		for _, ci := range callsTo(mar, "(*encoding/gob.Encoder).Encode") {
+			if b, f, ok := fieldLoad(strip(arg(ci, 0))); ok && b == ssa.Value(mar.Params[0]) && typeIs(f.Type(), identPkgPath, "user") {
+				recField, encOK = f, true
+			}
+		}
+		decOK := false
+		if recField != nil {
+			for _, ci := range callsTo(unm, "(*encoding/gob.Decoder).Decode") {
+				al, isAl := strip(arg(ci, 0)).(*ssa.Alloc)
+				if !isAl || !typeIs(al.Type(), identPkgPath, "user") || len(storesTo(al)) > 1 {
+					continue
+				}
+				eachInstr(unm, func(in ssa.Instruction) {
+					if st, ok := in.(*ssa.Store); ok {
+						if b, f, ok := fieldOfAddr(st.Addr); ok && f == recField && b == ssa.Value(unm.Params[0]) {
+							if la, ok := loadAddr(strip(st.Val)); ok && la == ssa.Value(al) && dominatesInstr(ci.(ssa.Instruction), st) {
+								decOK = true
+							}
+						}
+					}
+				})
+			}
+		}
+		if encOK || decOK {
+			c.Check(encOK, rule, "Marshal encodes-mirror", mar.Pos(), "the stored record itself is what gob encodes", "gob does not encode the identity's record")
+			c.Check(decOK, rule, "Unmarshal restores-record", unm.Pos(), "a freshly decoded record replaces the identity's record as a whole", "Unmarshal does not replace the identity's record by a freshly decoded one (decoding on top of the current state keeps fields gob leaves out)")
+			for i := 0; i < userT.NumFields(); i++ {
+				c.OKTrivial(rule, "field "+userT.Field(i).Name(), userT.Field(i).Pos(), "part of the one record that is stored and restored")
+			}
+			_ = mirT
+			return
+		}
 		c.Missing("mirror literal in Marshal")
 	}
 	for f, vs := range structFieldStores(lit) {
